@@ -48,7 +48,7 @@ def displaced_reads(repo, chk):
     if fn is None:
         return
     m = fn.module
-    arrays = set(fn.params)
+    arrays = set(fn.params[:2])          # the two row-indexed code vectors (tables of values / counts are read at table positions, another matter)
     defs = {}
     for n in own_nodes(fn.node):
         if isinstance(n, ast.Assign) and len(n.targets) == 1 and isinstance(n.targets[0], ast.Name):
@@ -72,7 +72,10 @@ def displaced_reads(repo, chk):
                 return True
         return False
 
-    def is_len_of(e, base):
+    def is_len_of(e, base, depth=0):
+        if isinstance(e, ast.Name) and e.id not in arrays and len(defs.get(e.id, ())) == 1 and depth < 3 and \
+                not any(isinstance(x, ast.AugAssign) and isinstance(x.target, ast.Name) and x.target.id == e.id for x in own_nodes(fn.node)):
+            return is_len_of(defs[e.id][0], base, depth + 1)          # n_rows = len(Y), bound once
         return (isinstance(e, ast.Call) and isinstance(e.func, ast.Name) and e.func.id == 'len' and len(e.args) == 1 and ast.unparse(e.args[0]) == base) or \
                (isinstance(e, ast.Attribute) and e.attr == 'size' and ast.unparse(e.value) == base) or \
                (isinstance(e, ast.Subscript) and isinstance(e.value, ast.Attribute) and e.value.attr == 'shape' and ast.unparse(e.value.value) == base)
